@@ -16,7 +16,7 @@ FUNCTIONS = ["peltool.main (-f / -j branches)", "peltool.parseAndWriteOutput", "
              "peltool.parsePEL", "peltool.considerPEL"]
 HARNESSES = [
     {"fn": "h_json_clean", "cases": ["good", "good/E", "good/H", "good/s", "trunc", "trunc/E", "cut/E", "junk", "two", "two/E", "good/E:leftover"],
-     "quick_cases": ["good", "good/H", "trunc/E", "cut/E", "two/E", "good/E:leftover"], "timeout": {"quick": 90, "thorough": 300}},
+     "quick_cases": ["good", "good/H", "trunc/E", "cut/E", "two/E", "good/E:leftover"], "timeout": {"quick": 180, "thorough": 400}},
     {"fn": "h_long_name", "cases": ["255", "241"], "timeout": {"quick": 90, "thorough": 300}},
     {"fn": "h_file_clean", "cases": ["good", "good/E", "good/H", "good:hex/E", "trunc", "trunc/E", "cut/E", "junk", "good:nostdout/E", "good:hex:nostdout/E"],
      "quick_cases": ["good", "good:hex/E", "trunc/E", "cut/E", "junk", "good:nostdout/E", "good:hex:nostdout/E"], "timeout": {"quick": 90, "thorough": 300}},
